@@ -98,7 +98,7 @@ class Problem:
     """One traced contract: symbolic pre/post, obligations, and what is needed to replay a model."""
 
     def __init__(self, title, args, ensures, requires=None, *, targets=(), use_stubs=True, while_bound=16,
-                 fmul_uf=False, arg_names=None, timeout=120, key_args=(), note=None, merge_over=None):
+                 fmul_uf=False, arg_names=None, timeout=120, key_args=(), note=None, merge_over=None, tree_ops=None):
         self.title = title
         self.args = args
         self.ensures, self.requires = ensures, requires
@@ -134,6 +134,11 @@ class Problem:
         self.t_trace = time.time() - t0
         t0 = time.time()
         S.FMUL_UF[0] = fmul_uf
+        # (term-shape option of the engine, semantics-preserving: which operations are distributed over constant-leaf decision trees; a contract may
+        #  pin it where the default combination makes z3 slow on its obligations - measured, RobotWarehouse C07: 537 s vs 53 s)
+        saved_ops = list(S.TREE_OPS)
+        if tree_ops is not None:
+            S.TREE_OPS[:] = list(tree_ops)
         sym = S.Sym(while_bound=while_bound)
         sym.ext_handlers = stubs.EXT_CONTRACTS
         self.sym = sym
@@ -144,6 +149,7 @@ class Problem:
             outs = sym.eval_closed(self.cj, *ins)
         finally:
             S.FMUL_UF[0] = False
+            S.TREE_OPS[:] = saved_ops
         oleaves, otree = jax.tree_util.tree_flatten(out_shape)
         self.pre, self.post = jax.tree_util.tree_unflatten(otree, outs)
         self.t_eval = time.time() - t0
